@@ -146,6 +146,11 @@ func CopyStable(ctx context.Context, dst, src raft.StableStore, extraKeys, extra
 			return ctx.Err()
 		}
 		v, err := src.GetUint64(k)
+		if isKeyNotFound(err) {
+			// Never written in the source (e.g. a node that never voted).
+			update("  skipped missing int %s", k)
+			continue
+		}
 		if err != nil {
 			return fmt.Errorf("failed to read int key %s: %w", k, err)
 		}
@@ -160,6 +165,10 @@ func CopyStable(ctx context.Context, dst, src raft.StableStore, extraKeys, extra
 			return ctx.Err()
 		}
 		v, err := src.Get(k)
+		if isKeyNotFound(err) {
+			update("  skipped missing %s", k)
+			continue
+		}
 		if err != nil {
 			return fmt.Errorf("failed to read key %s: %w", k, err)
 		}
@@ -172,4 +181,11 @@ func CopyStable(ctx context.Context, dst, src raft.StableStore, extraKeys, extra
 	update("DONE: took %s to copy %d KVs", time.Since(st),
 		len(knownIntKeys)+len(extraIntKeys)+len(knownKeys)+len(extraKeys))
 	return nil
+}
+
+// isKeyNotFound reports whether err is how raft stable stores (raft-boltdb,
+// raft.InmemStore) report a key that was never written. hashicorp/raft itself
+// matches on the message since the stores don't share an error value.
+func isKeyNotFound(err error) bool {
+	return err != nil && err.Error() == "not found"
 }
